@@ -416,11 +416,13 @@ def run(ctx):
     out = os.path.join(d, "plans.ndjson")
     scopes = [dict(L=2, NTimes=3)] if q else [dict(L=2, NTimes=4), dict(L=3, NTimes=2)]
     enumerated = []
-    for sc in scopes:
-        # T1 must hold on every plan; AlwaysRoundTrip must FAIL (outside the zone the forward plan does not determine
-        # the original plan: otherwise the zone would be an arbitrary restriction); -continue reports both
-        cfg = "SPECIFICATION Spec\nCONSTANTS L = %(L)d\n NTimes = %(NTimes)d\nINVARIANT T1\nINVARIANT AlwaysRoundTrip\n" % sc
-        res = tlc.run_tlc("PlanConvProcEnum", cfg, d, env={"P0": p0, "OUT": out}, workers=8, timeout=3000, continue_=True)
+    for k, sc in enumerate(scopes):
+        # T1 must hold on every plan; in the first scope AlwaysRoundTrip must FAIL (outside the zone the forward plan does
+        # not determine the original plan: otherwise the zone would be an arbitrary restriction); -continue reports both
+        cfg = "SPECIFICATION Spec\nCONSTANTS L = %(L)d\n NTimes = %(NTimes)d\nINVARIANT T1\n" % sc
+        if k == 0:
+            cfg += "INVARIANT AlwaysRoundTrip\n"
+        res = tlc.run_tlc("PlanConvProcEnum", cfg, d, env={"P0": p0, "OUT": out}, workers=8, timeout=3000, continue_=(k == 0))
         bad = set(re.findall(r"Invariant (\S+) is violated", res.stdout))
         if res.error and not bad:
             raise MachineryError(res.error)
@@ -428,7 +430,7 @@ def run(ctx):
         if "T1" in bad:
             ctx.violation("T1|design", "the specification's Back(Forward(p)) is not p inside the zone (design-level counterexample)",
                           {"scope": sc, "stdout": res.stdout[-3000:]})
-        if "AlwaysRoundTrip" not in bad:
+        if k == 0 and "AlwaysRoundTrip" not in bad:
             raise MachineryError("expected counterexamples to AlwaysRoundTrip outside the zone in scope %r" % (sc,))
         plans = [r["steps"] for r in tlc.read_ndjson(out)]
         em = [p for p in res.printed if p and p[0] == "EMITTED"]
